@@ -488,6 +488,8 @@ class FBStep(common.Suite):
                 if len(idx) != 1:
                     continue
                 g = obs["gamma"][idx[0]]
+                if 0 < abs(g) < 1e-9:
+                    continue      # |F| delta / 2kT at rounding level: the coded quotient is noise there (the property's carve-out)
                 ref = 1.0 if g == 0 else bal_neyts(g, z)
                 if ref is None:
                     continue
